@@ -541,6 +541,7 @@ func DumpScript(path string, as []*term.Term, want []*term.Term) {
 // ---------- VC pool ----------
 
 type Job struct {
+	SlowCap time.Duration // optional per-job cap for the racing stage
 	Label   string
 	Asserts []*term.Term
 	Want    []*term.Term
@@ -598,7 +599,11 @@ func (p *Pool) solveOne(proc *Proc, j *Job) Answer {
 	}
 	p.raceSlots <- struct{}{}
 	defer func() { <-p.raceSlots }()
-	r := Race(j.Asserts, j.Want, p.SlowCap, []Backend{BCvcInt, BZ3New, BCvc5, BZ3})
+	slow := p.SlowCap
+	if j.SlowCap > 0 && j.SlowCap < slow {
+		slow = j.SlowCap
+	}
+	r := Race(j.Asserts, j.Want, slow, []Backend{BCvcInt, BZ3New, BCvc5, BZ3})
 	if r.Res == Unknown && a.Note != "" {
 		r.Note = "z3-new(inc): " + a.Note + "; " + r.Note
 	}
